@@ -22,6 +22,31 @@ PW = r"^passage_protocol::crypto::stream::\{impl#\d+\}::poll_write$"
 PR = r"^passage_protocol::crypto::stream::\{impl#\d+\}::poll_read$"
 
 
+def data_spine(e):
+    """the chain of values a byte slice is derived from, outermost first: through references, iterator adaptors,
+    copies and slicing (always following the receiver / first argument), down to a parameter or an opaque value"""
+    out = []
+    for _ in range(60):
+        while e[0] in ("ref", "deref", "cell"):
+            e = e[3] if e[0] == "cell" else e[1]
+        out.append(e)
+        if e[0] == "mut":
+            e = e[1]
+        elif e[0] == "call" and e[3]:
+            e = e[3][0]
+        elif e[0] in ("field",):
+            e = e[1]
+        elif e[0] == "variant":
+            e = e[1]
+        elif e[0] in ("try", "await", "cast"):
+            e = e[1] if e[0] != "cast" else e[2]
+        elif e[0] == "phi" and len(e[1]) == 1:
+            e = e[1][0]
+        else:
+            break
+    return out
+
+
 def is_persistent(e, field):
     """expression denotes (a reference into) self.<field> rather than a local clone"""
     if calls_in(e, "Clone::clone"):
@@ -86,10 +111,17 @@ def check(ctx):
                 okk = [x for x in ready_ok if x[0] == "ok"]
                 # mutations of the persistent encryptor
                 muts = []
-                for bb, t in calls(b, ("BlockEncryptMut::encrypt_block_mut", "encrypt_blocks_mut", "StreamCipher::apply_keystream", "encrypt_block_inout_mut")):
-                    recv = arg(an, bb, t, 0)
+                ENC = ("BlockEncryptMut::encrypt_block_mut", "encrypt_blocks_mut", "StreamCipher::apply_keystream", "encrypt_block_inout_mut")
+                # encrypt calls: direct ones (receiver = argument 0, data = argument 1) and those a closure performs for an
+                # iterator adaptor (`chunks.for_each(|b| cipher.encrypt_block_mut(b))`: receiver = captured cipher, data = the iterator)
+                enc_sites = [(bb, t, arg(an, bb, t, 0), arg(an, bb, t, 1)) for bb, t in calls(b, ENC)]
+                mediated_names = set()
+                for bb, t, ai, cb, ibb, it, recv in closure_effects(ctx, b, ENC):
+                    enc_sites.append((bb, t, recv if recv is not None else ("unknown", "closure receiver"), arg(an, bb, t, 0 if ai != 0 else 1)))
+                    mediated_names.add(cname(t) or dname(t))
+                for bb, t, recv, data in enc_sites:
                     if is_persistent(recv, "encryptor"):
-                        muts.append((bb, "encrypt_block_mut", t))
+                        muts.append((bb, "encrypt_block_mut", (t, data)))
                 for bb, i, s in an.mem_writes:
                     if b.is_noise(s):
                         continue
@@ -112,8 +144,8 @@ def check(ctx):
                 # the data handed to the inner writer is ciphertext produced without touching the persistent state
                 data = arg(an, wb, wt, 2)
                 dm = find_all(data, lambda x: x[0] == "mut")
-                enc_calls_on_data = [c for c in calls(b, "BlockEncryptMut::encrypt_block_mut") if g.path(g.nodes_of_bb(c[0]), [wb]) is not None]
-                producers_ok = all(not is_persistent(arg(an, c[0], c[1], 0), "encryptor") for c in enc_calls_on_data)
+                enc_calls_on_data = [c for c in enc_sites if g.path(g.nodes_of_bb(c[0]), [wb]) is not None]
+                producers_ok = all(not is_persistent(c[2], "encryptor") for c in enc_calls_on_data)
                 if bad:
                     producers_ok = True   # already reported above
                 ctx.check(bool(bad) or (bool(enc_calls_on_data) and producers_ok), R, "C05/commit-after-accept/ciphertext-from-clone", site(b, wb),
@@ -135,16 +167,18 @@ def check(ctx):
                                     rng_ok = True
                             why = "the encryptor is overwritten by the advanced clone without a dominating `written == buf.len()` test"
                         else:
-                            src = arg(an, bb, item, 1)
-                            for c in calls_in(src, "Index::index"):
-                                r0 = flow.strip(c[3][1])
-                                if param_name(c[3][0]) == "buf" and r0[0] == "agg" and r0[1].endswith("RangeTo"):
-                                    rng_ok = True
-                            # the re-encrypted bytes must be the caller's plaintext, not bytes that already went through a cipher
-                            tainted = [m for m in find_all(src, lambda x: x[0] == "mut") if any(n.endswith("encrypt_block_mut") for n in m[2])
-                                       and not find_all(m[1], lambda x: x[0] == "call" and flow.short(x[1]).endswith("Index::index"))]
-                            if tainted:
-                                rng_ok = False
+                            src = item[1]
+                            # walk the data spine from the encrypted bytes back to where they come from: outer -> inner
+                            sp = data_spine(src)
+                            idx = [k for k, x in enumerate(sp) if x[0] == "call" and flow.short(x[1]).endswith(("Index::index", "IndexMut::index_mut"))
+                                   and flow.strip(x[3][1])[0] == "agg" and flow.strip(x[3][1])[1].endswith("RangeTo")]
+                            rng_ok = bool(idx) and bool(sp) and param_name(sp[-1]) == "buf"
+                            # the re-encrypted bytes must be the caller's plaintext: nothing between buf and the [..n] prefix may have gone through a cipher
+                            if idx:
+                                inner = sp[idx[-1] + 1:]
+                                tainted = [m for m in inner if m[0] == "mut" and any(n.endswith("encrypt_block_mut") or n in mediated_names for n in m[2])]
+                                if tainted:
+                                    rng_ok = False
                             why = ("the real encryptor is advanced over %s; it must run over the accepted plaintext prefix buf[..n] — feeding it ciphertext "
                                    "(or any other bytes) leaves a wrong CFB8 feedback register after a short write") % render(flow.strip(src), maxdepth=4)
                         ctx.check(rng_ok, R, "C05/commit-after-accept/exactly-accepted-bytes/" + kind, site(b, bb), reason=why,
